@@ -39,10 +39,12 @@ func (b *Buffer) Put(key, value []byte) {
 	b.mu.Lock()
 	defer b.mu.Unlock()
 
-	// Store in the operations map - skiplist handles defensive copying
+	// Capture key and value at call time: the caller may reuse its buffers
+	// before the transaction commits. The value copy is never nil, nil marks
+	// a deletion.
 	b.operations[string(key)] = &Operation{
-		Key:      key,
-		Value:    value,
+		Key:      append([]byte{}, key...),
+		Value:    append([]byte{}, value...),
 		IsDelete: false,
 	}
 }
@@ -52,9 +54,9 @@ func (b *Buffer) Delete(key []byte) {
 	b.mu.Lock()
 	defer b.mu.Unlock()
 
-	// Store in the operations map - skiplist handles defensive copying
+	// Capture the key at call time (see Put)
 	b.operations[string(key)] = &Operation{
-		Key:      key,
+		Key:      append([]byte{}, key...),
 		Value:    nil,
 		IsDelete: true,
 	}
